@@ -32,3 +32,12 @@ def sectmarker(section):
     if any("!sbad" in v for v in strs):
         raise ValueError("section marked bad")
     return Wrapped("checked", section)
+
+
+def nested(v):
+    """a datatype that is itself implemented with ZConfig: on the marker it raises a DataConversionError (a ValueError
+    subclass carrying its OWN position and text), as a nested loadConfig would"""
+    if "!nested" in v:
+        import ZConfig
+        raise ZConfig.DataConversionError(ValueError("inner failure"), "inner-text", (2, 1, "file:///zcv/inner.conf"))
+    return v
